@@ -65,6 +65,14 @@ Theorem url_attr_inert :
 Proof. exact HtmlEscProofs.url_attr_inert. Qed.
 Print Assumptions url_attr_inert.
 
+(* every form, every data: the emitted bytes tokenize (HTML5 rules for tags,
+   double-quoted attribute values, character references, script raw text) to
+   exactly the intended elements, attribute names and order; the interpolated
+   strings occur only as attribute values (the toast as text) *)
+Theorem form_structure_fixed : forall k d, tokenize_form (render_form k d) = Some (intended_of k d).
+Proof. exact HtmlEscProofs.form_structure_fixed. Qed.
+Print Assumptions form_structure_fixed.
+
 Theorem C14_location_http_only :
   forall b loc loc',
   check_endpoint_location b loc = Ok loc' ->
